@@ -19,6 +19,13 @@ def obligations(tier):
         obs.append(Ob(f"C05.lines/{name}", "pre", "c_lines", {"VF_T": ti, "VF_NBREAK": 2 if tier == "quick" else 3}, t, FN_PRE,
                       "line breaks at up to 2 [thorough 3] token gaps (symbolic positions), continuation indent 0/2/4 blanks, optional blank line; same statement as the one-line spelling",
                       known="quote-at-line-start"))
+    obs.append(Ob("C05.crlf/parse_from_file-text-mode", "misc", "c_plumb", {}, 200, ["simple_ddl_parser/ddl_parser.py:parse_from_file"],
+                  "file input is read in text mode with universal newlines (mode 'r', no newline= argument): CRLF files reach the parser as LF text; replay parses a real CRLF file"))
+    obs.append(Ob("C05.case/statements", "pipe", "c_case_stmt", {}, 300 if tier == "quick" else 900,
+                  ["whole pipeline (harness/pipe.py): pre-processor, real PLY lexer, LALR driver, actions, output"],
+                  "16 catalogued statements (tables with IDENTITY / GENERATED / CHECK / constraints, Hive / MySQL / Oracle / Redshift / Snowflake clauses, 3 ALTER kinds, index, "
+                  "sequence, type, schema, tablespace, drop) with every marked keyword lower-cased or Capitalized (symbolic): same result as upper case",
+                  known="asc-desc-lowercase"))
     if tier == "thorough":
         obs += mask_obs("C05", ["option_pos", "after_columns", "seq_options", "alter_body", "col_later", "after_create"], tier)
     return obs
